@@ -67,6 +67,9 @@ SAFE = [
     r"^std::convert::num::<impl std::convert::From<(bool|char|[iu](8|16|32|64|128|size))> for [iuf](8|16|32|64|128|size)>::from$",   # lossless primitive widenings
     r"^<T as std::borrow::ToOwned>::to_owned$", r"^std::borrow::(Borrow::borrow|BorrowMut::borrow_mut|ToOwned::to_owned)$", r"as std::borrow::(Borrow|BorrowMut)(<.*>)?>::",
     r"^<T as std::string::ToString>::to_string$", r"^std::string::ToString::to_string$",
+    r"^std::(str|slice)::<impl std::borrow::ToOwned for (str|\[T\])>::to_owned$",
+    r"^(std|core)::bool::<impl bool>::(then|then_some)$",
+    r"as std::convert::(TryFrom|TryInto)(<.*>)?>::(try_from|try_into)$", r"^std::convert::num::<impl std::convert::TryFrom<.*> for [iu](8|16|32|64|128|size)>::try_from$",   # return a Result
     r"as std::default::Default>::default$", r"^std::default::Default::default$", r"^std::array::<impl std::default::Default for .*>::default$",
     r"as std::ops::(BitAnd|BitOr|BitXor|Not)(<.*>)?>::(bitand|bitor|bitxor|not)$",
     r"^<std::string::String as std::ops::Add<&str>>::add$",
